@@ -96,6 +96,8 @@ namespace vh::pk {
         if (P.has(pre + "stack_medium")) ini("pika.stacks.medium_size", g("stack_medium"));
         if (P.has(pre + "stack_large")) ini("pika.stacks.large_size", g("stack_large"));
         if (P.has(pre + "stack_huge")) ini("pika.stacks.huge_size", g("stack_huge"));
+        if (P.has(pre + "mpi_completion_mode")) ini("pika.mpi.completion_mode", g("mpi_completion_mode"));
+        if (P.has(pre + "mpi_enable_pool")) ini("pika.mpi.enable_pool", g("mpi_enable_pool"));
         a.push_back("--pika:ini=pika.diagnostics_on_terminate=0");
         return a;
     }
